@@ -47,7 +47,7 @@ def generate(ctx, deep=False):
     for kind, s in nc.tag_blocks(bases):
         cases.append((kind, [s]))
     mbases = bases if (deep or not ctx.quick) else [b for b in bases if b[0] in
-                                                   ('single', 'single-bs-lower', 'part2of2', 'fill5', 'extra-field', 'empty-payload',
+                                                   ('single', 'single-bs-lower', 'part1of2', 'part2of2', 'fill5', 'extra-field', 'empty-payload',
                                                     'unknown-id', 'gatehouse', 'gatehouse-lower', 'low-xor')]
     for kind, s in nc.matrix(mbases, tokens):
         cases.append((kind, [s]))
